@@ -178,6 +178,7 @@ pub fn one_input(rep: &mut Report, fam: &str, idx: u64, label: &str, bytes: Vec<
                         ErrK::InvalidTag(_) => "err-invalid-tag",
                         ErrK::InvalidCollection => "err-invalid-collection",
                         ErrK::Io(_) => "err-io",
+                        ErrK::Other(_) => "err-other",
                     };
                     phase(9);
                     let _ = catch(move || format!("{e} {e:?}"));
